@@ -363,6 +363,53 @@ def d18():
     return with_tree(run)
 
 
+def d19():
+    bad = []
+    for line, tls in ((b"/foo\x00bar\r\n", False), (b"GET /foo%00bar HTTP/1.0\r\n\r\n", False), (b"gemini://h/%00\r\n", True)):
+        out, esc, log = request(line, tls=tls)
+        if not out or had_exception(log):
+            bad.append(line)
+    return bool(bad), f"NUL selector got no reply: {bad}"
+
+
+def d20():
+    bad = []
+    for line in (b"/python-dev.mbox?/MBOX-MESSAGE/" + b"1" * 5000 + b"\r\n", b"h / " + b"1" * 5000 + b"\r\n"):
+        out, esc, log = request(line)
+        if not out or had_exception(log):
+            bad.append(line[:30])
+    return bool(bad), f"long digit string got no reply: {bad}"
+
+
+def d21():
+    bad = []
+    for line, tls in ((b"gemini://h/a%0Ab\r\n", True), (b"h /a%0D%0Ab 0\r\n", False)):
+        out, esc, log = request(line, tls=tls)
+        if out.count(b"\n") != 1:
+            bad.append(out[:40])
+    return bool(bad), f"status line broken by a decoded line break: {bad}"
+
+
+def d22():
+    import glob
+
+    cfg = make_config(conf="conf/pygopherd.conf")
+    cfg.set("handlers.dir.DirHandler", "cachetime", "180")
+    pat = os.path.join(REPO, "testdata", "**", ".cache.pygopherd.dir")
+    for f in glob.glob(pat, recursive=True):
+        os.unlink(f)
+    try:
+        request(b"/pygopherd//\r\n", cfg)
+        after, _, _ = request(b"/pygopherd\r\n", cfg)
+        for f in glob.glob(pat, recursive=True):
+            os.unlink(f)
+        fresh, _, _ = request(b"/pygopherd\r\n", cfg)
+    finally:
+        for f in glob.glob(pat, recursive=True):
+            os.unlink(f)
+    return after != fresh, f"listing of /pygopherd after a '/pygopherd//' request: {after[:40]!r} (fresh: {fresh[:40]!r})"
+
+
 ALL = {k: v for k, v in list(globals().items()) if k.startswith("d") and k[1:2].isdigit() and callable(v)}
 ALL.pop("d8", None)
 
